@@ -476,7 +476,7 @@ func (e *escaper) escapeTemplate(c context, n *parse.TemplateNode) context {
 // from template names mangled with different contexts.
 func mangle(c context, templateName string) string {
 	// The mangled name for the default context is the input templateName.
-	if c.state == stateText {
+	if c.state == stateText && c.element.name == "" && len(c.element.names) == 0 {
 		return templateName
 	}
 	s := templateName + "$htmltemplate_" + c.state.String()
@@ -488,6 +488,13 @@ func mangle(c context, templateName string) string {
 	}
 	if c.element.name != "" {
 		s += "_" + c.element.String()
+	}
+	// The other finite parts of the context that the choice of sanitizers depends on: conditional
+	// element and attribute names, the script type and the link rel. Without them a template
+	// derived for one call site was reused at another call site that needs different sanitizers.
+	// (The static attribute value prefix is deliberately left out: it grows along recursive calls.)
+	if len(c.attr.names) > 0 || len(c.element.names) > 0 || c.scriptType != "" || c.linkRel != "" {
+		s += fmt.Sprintf("_%q_%q_%q_%q", c.attr.names, c.element.names, c.scriptType, c.linkRel)
 	}
 	return s
 }
